@@ -270,6 +270,13 @@ fn gen_script(rng: &mut StdRng, always_restart: bool, fbmode: bool) -> J {
             let shape = SHAPES[rng.gen_range(0..SHAPES.len())];
             counters.push(json!({"name": format!("k{c}"), "owner": rng.gen_range(1..=np), "fb": 0, "scope": scope, "qual": qual, "shape": shape}));
         }
+        // a program variable whose initialiser reads a (non-retained) global that the programs keep changing:
+        // `kref : INT := gsrc;` -- at every restart the globals are initialised before the program variables
+        if rng.gen_bool(0.5) {
+            let (q1, q2) = (["none", "nonretain"][rng.gen_range(0..2)], ["none", "nonretain"][rng.gen_range(0..2)]);
+            counters.push(json!({"name": "gsrc", "owner": rng.gen_range(1..=np), "fb": 0, "scope": "global", "qual": q1, "shape": "INT"}));
+            counters.push(json!({"name": "kref", "owner": rng.gen_range(1..=np), "fb": 0, "scope": "program", "qual": q2, "shape": "INT", "initFrom": "gsrc"}));
+        }
     }
     let mut sinit = Map::new();
     for s in singles {
@@ -444,9 +451,17 @@ pub fn render_source(cfg: &J) -> String {
         let mut qdecls = String::new();
         for c in counters.iter().filter(|c| c["owner"] == json!(j + 1)) {
             let n = c["name"].as_str().unwrap();
-            let (ty, init, bump) = shape_decl(c["shape"].as_str().unwrap(), n);
+            let (ty, mut init, bump) = shape_decl(c["shape"].as_str().unwrap(), n);
+            if let Some(g) = c["initFrom"].as_str().filter(|g| !g.is_empty()) {
+                init = format!(" := {g}");
+                if !ext.contains(&format!(" {g} :")) {
+                    ext.push_str(&format!(" {g} : INT;"));
+                }
+            }
             if c["scope"] == "global" {
-                ext.push_str(&format!(" {n} : {ty};"));
+                if !ext.contains(&format!(" {n} :")) {
+                    ext.push_str(&format!(" {n} : {ty};"));
+                }
             } else {
                 qdecls.push_str(&format!("VAR{}\n  {n} : {ty}{init};\nEND_VAR\n", qual_kw(c["qual"].as_str().unwrap())));
             }
@@ -647,6 +662,9 @@ fn normalise(cfg: &J) -> J {
         for c in cs {
             if c.get("fb").is_none() {
                 c["fb"] = json!(0);
+            }
+            if c.get("initFrom").is_none() {
+                c["initFrom"] = json!("");
             }
         }
     }
